@@ -422,6 +422,18 @@ def run_public_corr(res, tier, rng, nap):
     res.count("decimal_floor_division_probe(binsize=0.1s,windowsize=0.3s): rows=%d, exact=7" % nrows)
     if nrows != 7:
         res.float_ambiguous += 1
+    # --- probe: bin sizes >= 2 s with 2w/b within 0.5e-9 below an integer (the hypothesis round9_exact of Properties/C16b.v fails):
+    #     nbins = floor(np.round(2w/b, 9)) takes the quotient for the integer above
+    for b, w in ((4_000_000_000, 3_999_999_999), (5_000_000_000, 4_999_999_999), (4_000_000_000, 5_999_999_999)):
+        grp = nap.TsGroup({0: nap.Ts(np.array([1.0, 5.0])), 1: nap.Ts(np.array([0.0, 2.0, 4.999999999, 9.0]))}, time_support=nap.IntervalSet(-1.0, 20.0))
+        df = nap.compute_crosscorrelogram(grp, b / 1e9, w / 1e9, norm=False)
+        got = [C.to_ns(x) for x in df.index.values]
+        res.evaluations += 1
+        res.count("nbins_round9_probe")
+        if got != o_centres(b, w):
+            res.violations.append({"key": {"op": "compute_crosscorrelogram", "part": "centres", "binsize_ge_2s_and_2w_over_b_within_half_ns_below_integer": True},
+                                   "what": "bins centred outside the requested window: nbins = floor(np.round(2w/b, 9)) rounds 2w/b up to the next integer",
+                                   "input": {"binsize": b, "windowsize": w}, "impl": got, "expected": o_centres(b, w)})
 
 
 # ----------------------------------------------------------------------------------------------
